@@ -165,6 +165,21 @@ def Membrane.filterSeq (envOf : Nat → Env) (m : Membrane) (now : Nat) :
     ((Membrane.filterSeq envOf (m.filter (envOf i) now c).1 now rest).1,
      (i, (m.filter (envOf i) now c).2) :: (Membrane.filterSeq envOf (m.filter (envOf i) now c).1 now rest).2)
 
+/-- The same calls as `filterSeq`, written as a loop with an accumulator (each call evaluated once, constant stack):
+    what the driver executes for a `bulk` line — a LONG run of calls on one membrane (thousands of distinct inputs,
+    so that any bound on what the membrane remembers would be crossed).  `c10_bulk_is_sequential_history` shows it
+    is `filterSeq`, hence a history of `filter` operations. -/
+def Membrane.filterLoop (envOf : Nat → Env) (now : Nat) :
+    Membrane → List (Nat × Str) → List (Nat × FilterOut) → Membrane × List (Nat × FilterOut)
+  | m, [], acc => (m, acc.reverse)
+  | m, (i, c) :: rest, acc =>
+    match m.filter (envOf i) now c with
+    | (m', o) => Membrane.filterLoop envOf now m' rest ((i, o) :: acc)
+
+/-- the inputs of a `bulk` line: `pre ++ decimal(i) ++ suf` for `i < n` (pairwise distinct) -/
+def bulkInputs (pre suf : Str) (n : Nat) : List (Nat × Str) :=
+  (List.range n).map fun i => (i, pre ++ (toString i).toList.map Char.toNat ++ suf)
+
 /-- `learn_threat`: constructs the signature (compiling a regex may raise `re.error`), stores it only when
     adaptive immunity is enabled. -/
 def Membrane.learn (env : Env) (m : Membrane) (s : Sig) : Membrane × Out Unit :=
